@@ -142,7 +142,7 @@ impl FromStr for PrettyDecimal {
                     format = Some(Format::Comma3Dot);
                     comma_pos = Some(i + 4);
                 }
-                (_, _, b'.') if comma_pos.is_none() || comma_pos == Some(i) => {
+                (_, _, b'.') if scale.is_none() && (comma_pos.is_none() || comma_pos == Some(i)) => {
                     scale = Some(0);
                     comma_pos = None;
                 }
